@@ -26,10 +26,11 @@ func vr2GenOffKeys(t *rapid.T, label string) []uint64 {
 // vr2GenSpecAllKeys is vGenBitmapSpec, except that every key of keys gets a
 // container (vGenBitmapSpec picks a random subset) and a few shapes that
 // matter to the serialised formats are added:
-//   exact4096  : exactly 4096 scattered values (largest array container of the official format)
-//   exact4097  : smallest bitset container
-//   runs3plus  : >= 3 runs (more than fit a container's inline storage)
-//   altBits    : every second value: 32768 runs (run count does not fit 14 bits) — rare, only when big
+//
+//	exact4096  : exactly 4096 scattered values (largest array container of the official format)
+//	exact4097  : smallest bitset container
+//	runs3plus  : >= 3 runs (more than fit a container's inline storage)
+//	altBits    : every second value: 32768 runs (run count does not fit 14 bits) — rare, only when big
 func vr2GenSpecAllKeys(t *rapid.T, label string, keys []uint64, allowBig bool) vBitmapSpec {
 	var sp vBitmapSpec
 	for i, k := range keys {
@@ -88,9 +89,10 @@ func vr2GenSpecAllKeys(t *rapid.T, label string, keys []uint64, allowBig bool) v
 func vr2NumRuns(vals []uint16) int { return len(vRunsOf(vals)) }
 
 // vr2Payload renders the set of sp as import/decode input.
-//   "pilosa"      : Bitmap.WriteTo of a bitmap holding the set (what Pilosa clients send / what snapshots hold)
-//   "pilosaUnopt" : the same, container types exactly as the spec says (writeToUnoptimized)
-//   "official"    : vr2OffEncode (keys must be < 2^16)
+//
+//	"pilosa"      : Bitmap.WriteTo of a bitmap holding the set (what Pilosa clients send / what snapshots hold)
+//	"pilosaUnopt" : the same, container types exactly as the spec says (writeToUnoptimized)
+//	"official"    : vr2OffEncode (keys must be < 2^16)
 func vr2Payload(t *rapid.T, sp vBitmapSpec, format string) []byte {
 	switch format {
 	case "pilosa", "pilosaUnopt":
